@@ -279,6 +279,13 @@ KERNELS = [
          loc=("if_containing", "length"), typ="Nat", subst={"length": "n"},
          params="(n : Nat)", obl="(n : Nat)", call="n", model="(Asn1.lengthOctets n = [n])", imports=["Model.Asn1", "Proofs.Kernels"],
          unfold=[], tactic="exact (Kernels.shortForm_iff n).symm"),
+    # _gkdi.GetKey: NDR64 padding of the security descriptor, on both sides
+    dict(name="GetKeyPackPad", props=["C11", "C17"], file="_gkdi.py", func="GetKey.pack", loc=("mult_zero", 1), typ="Int",
+         subst={"len(self.target_sd)": "n"}, params="(n : Int)", obl="(n : Nat)", call="(n : Int)", model="Py.negMod n 8",
+         imports=["Model.Py"], unfold=["Py.negMod"]),
+    dict(name="GetKeyUnpackPad", props=["C11", "C17"], file="_gkdi.py", func="GetKey.unpack", loc=("assign", "padding"), typ="Int",
+         subst={"target_sd_len": "n"}, params="(n : Int)", obl="(n : Nat)", call="(n : Int)", model="Py.negMod n 8",
+         imports=["Model.Py"], unfold=["Py.negMod"]),
     dict(name="TlvLowTag", props=["C07", "C06"], file="_asn1.py", func="_pack_asn1", kind="prop",
          loc=("if_containing", "tag_number"), typ="Nat", subst={"tag_number": "n"},
          params="(n : Nat)", obl="(n : Nat)", call="n", model="(n < 31)", imports=["Model.Asn1"],
